@@ -154,6 +154,7 @@ def run(ck):
         last_dump = {}
         pending_act = None
         other_act = False
+        stop_fed = set()
         ev_seen = {}
         enq_ids = []
         tx_ev = {}
@@ -179,6 +180,8 @@ def run(ck):
                 elif bytes.fromhex(t[2]) == apci.STARTDT_ACT and ci not in dirty:
                     pending_act = ci
                     other_act = False
+                if bytes.fromhex(t[2]) != apci.STARTDT_ACT:
+                    stop_fed.add(ci)       # anything but STARTDT (STOPDT, frames that close) may end the started state on its own
             elif t[0] == "tick":
                 blk = []
                 while oi < len(out):
@@ -280,6 +283,13 @@ def run(ck):
                 # activation correspondence: dump before / after a STARTDT
                 if pending_act is not None and pending_act not in d:
                     pending_act = None
+                # connection-is-group mode: every connection is independent -- a started connection stays started unless it was
+                # itself sent something that ends that (STOPDT, a frame that closes it)
+                if mode == 1 and last_dump:
+                    for c, (g, st) in d.items():
+                        if c in last_dump and last_dump[c][1] == 1 and st != 1 and c not in stop_fed and c not in dirty:
+                            bad.append(("not-independent", "connection c%d was started and is not any more although nothing was sent to it: in connection-is-group mode another connection's STARTDT must not touch it" % c))
+                stop_fed = set()
                 # oracle at every dump: at most one started connection per group
                 per = {}
                 for c, (g, st) in d.items():
@@ -330,6 +340,30 @@ def run(ck):
                     if got != "act " + exp[1] and ndiff < 10:
                         ndiff += 1
                         ck.fail("correspondence", "diff:activate", "activation model gives `%s`, the server `act %s`" % (got, exp[1]), {"script": lines, "model_script": ml})
+    # ---- threaded server (listener thread): admission by limit and by the connection request callback, also after an earlier refusal
+    try:
+        from props import c18 as _c18
+        ht = _c18.thr_harness()
+    except Exception as e:
+        ht = None
+        ck.fail("obligation", "machinery:h_life_thr", "threaded server harness does not build: " + str(e)[-300:], {"theorem": "harness"})
+    if ht:
+        tsc = []
+        for md in (0, 1, 2):
+            tsc.append("mode=%d conns=%d startdt=1 rounds=2 maxconn=%d late=1" % (md, rng.range(2, 4), rng.range(1, 2)))
+            tsc.append("mode=%d conns=%d startdt=0 rounds=2 maxconn=0 late=1 deny=%d" % (md, rng.range(2, 4), rng.range(1, 3)))
+            tsc.append("mode=%d conns=%d startdt=1 rounds=1 maxconn=%d late=1 deny=%d" % (md, 4, 3, rng.range(1, 3)))
+        for line in tsc:
+            out, err, code = _c18.run_thr(ht, line)
+            ck.evaluations += 1
+            ck.count("threaded-admission-scenarios")
+            ck.nontriv(("thr", line))
+            for l in out:
+                if l.startswith(("bad not-admitted", "bad limit-exceeded")):
+                    q = l.split(None, 2)
+                    ck.fail("input", "oracle:admission:threaded:" + q[1], "threaded server admission: " + q[2], {"scenario": line, "observed": out[-12:], "harness": "h_life_thr", "rerun": "echo '%s' | <h_life_thr>" % line})
+            if out and out[-1] == "hang" or code == 124:
+                ck.fail("input", "hang:threaded", "threaded server scenario did not finish", {"scenario": line, "observed": out[-10:]})
     ck.extra["disagreements"] = ndiff
     ck.extra["exhaustive"] = False
     ck.count("scenarios", len(scen))
